@@ -169,7 +169,7 @@ class World:
         cls._instance = cls._instances[key]
         return cls._instance
 
-    def __init__(self, streams=('bbb', 'tears', 'synirr', 'synoff', 'synnot', 'synenc', 'synwild', 'synnum', 'synmk', 'syndef'), users=True, writable_blobs=False, with_subs=True,
+    def __init__(self, streams=('bbb', 'tears', 'synirr', 'synoff', 'synnot', 'synenc', 'synwild', 'synnum', 'synmk', 'syndef', 'syntrk'), users=True, writable_blobs=False, with_subs=True,
                  propagate=False, mps=True, extras=False):
         import logging
         logging.disable(logging.CRITICAL)
